@@ -92,6 +92,22 @@ def gen(tier):
                               sched=dict(kind="solo-after", a=0, b=1, b_max=2000, **pt), hold=["fn"], max_steps=60000,
                               note="%s %s" % (name, json.dumps(pt)))
                     scen.append(sc)
+        # hit path of the load-if-exists calls for keys in OVERFLOW buckets: a prefilled table (chains longer than one
+        # bucket), A parked inside its user function on one prefilled key (it holds that root bucket), B then hits every
+        # other prefilled key with LoadOrStore / LoadOrCompute / Load in one go: loads only, whatever chain a key sits in
+        if not cont.startswith("Cache"):
+            pre = _prefill(cont, hasher)
+            pk = [o["k"] for o in pre][:-3]      # stay below the grow threshold: no resize in this family
+            pre = pre[:len(pk)]
+            xs = pk[::7] if tier == "quick" else pk
+            for X in xs:
+                for opn, extra in (("LoadOrStore", {"v": 777}), ("LoadOrCompute", {"v": 778}), ("Load", {})):
+                    n += 1
+                    bops = [dict({"op": opn, "k": k}, **extra) for k in pk if k != X]
+                    scen.append(dict(base, id="c16_%d" % n, setup=_setup(cont) + pre,
+                                     threads=[[{"op": "Compute", "k": X, "fn": "set:5", "park": "fn"}], bops],
+                                     sched=dict(kind="solo-after", a=0, b=1, b_max=40000, park="fn"), hold=["fn"], max_steps=200000,
+                                     note="overflow hit path: writer parked on %d, %s of every other prefilled key" % (X, opn)))
         # a grow in flight: table at its threshold, A inserts and is frozen K steps into the resize
         grow_ks = list(range(3, 420, 29 if tier == "quick" else 5))
         for K in grow_ks:
